@@ -361,7 +361,7 @@ pub fn nest_child(depth: usize) -> ! {
     let mut p = RespParser::new();
     p.feed(&bytes);
     let r = p.parse();
-    println!("nest {} -> {}", depth, if r.is_ok() { "ok" } else { "err" });
+    crate::outln!("nest {} -> {}", depth, if r.is_ok() { "ok" } else { "err" });
     std::process::exit(0);
 }
 
@@ -413,11 +413,11 @@ pub fn run(tier: Tier, seed: u64, replay: Option<Value>) -> i32 {
         };
         return match res {
             Ok(()) => {
-                println!("replay: PASS");
+                crate::outln!("replay: PASS");
                 0
             }
             Err(e) => {
-                println!("replay: FAIL {}", e);
+                crate::outln!("replay: FAIL {}", e);
                 1
             }
         };
